@@ -320,6 +320,9 @@ class Ctx:
             return value
         s = sp.Symbol(name, real=True)
         self.path.atom_eqs.append(sp.expand(S.numden(s - value.e)[0]))
+        if not hasattr(self.path, 'abstr'):
+            self.path.abstr = {}
+        self.path.abstr[s] = value.e
         if self.mode == 'concolic':
             self.env[s] = num_eval(value.e, (_atom_values(self.path, self.env), self.env)[1])
         else:
@@ -634,6 +637,12 @@ def discharge(path, kind, payload, timeout_ms):
                 # fast path: substitute r**2 -> radicand and let identical terms cancel (no common denominator)
                 try:
                     q = part
+                    ab_ = getattr(path, 'abstr', None)
+                    if ab_:
+                        for _ in range(4):
+                            if not (q.free_symbols & set(ab_)):
+                                break
+                            q = q.xreplace(ab_)
                     for key_, (r_, e_) in path.sqrt_atoms.items():
                         if q.has(r_):
                             q = q.subs(r_ ** 2, e_)
@@ -667,12 +676,14 @@ def discharge(path, kind, payload, timeout_ms):
     ev = _try_eval(path, goal) if isinstance(goal, (SymBool, bool)) else None
     if ev is True:
         return 'proved', 'path-evaluation', '', time.time() - t0
-    if isinstance(goal, SymBool) and goal.k == 'rel' and goal.b == '==':
-        eqs = path.atom_eqs + path.equalities()
-        nonzero = [pl for (pl, sg) in path.signs.values() if S.ZERO not in sg]
-        ok, h = P.groebner_prove(eqs, goal.a, nonzero)
-        if ok:
-            return 'proved', 'groebner', h, time.time() - t0
+    if isinstance(goal, SymBool) and goal.k == 'rel' and goal.b == '==' and not getattr(path, '_in_eq', False):
+        path._in_eq = True
+        try:
+            st_, be_, det_, _ = discharge(path, 'eq', (Sym(goal.a), Sym(0)), min(timeout_ms, 5000))
+        finally:
+            path._in_eq = False
+        if st_ == 'proved':
+            return st_, be_, det_, time.time() - t0
     # narrow slice first: only facts over the goal's own symbols
     if isinstance(goal, SymBool):
         st, info, _ = P.z3_prove(path, goal, min(timeout_ms, 3000), only_syms=P.cond_symbols(goal))
